@@ -13,7 +13,15 @@ from claims import CLAIMED, PENDING, NA  # noqa: E402
 
 def main():
     checks = []
+    import re
+    known = json.load(open(os.path.join(ROOT, 'known_findings.json')))
     for p, (tech, text, note, ref) in sorted(CLAIMED.items()):
+        props = open(os.path.join(ROOT, 'coq', 'Props', p + '.v')).read()
+        n = len(re.findall(r'^\s*Theorem\s', props, re.M))
+        text = text.replace('{N}', str(n))
+        sigs = sorted(f['signature'] for f in known.get('findings', []) if f['property'] == p)
+        note = note + (' Known findings kept (known_findings.json, each mirrored by a _refuted witness or an explicit guard): ' + '; '.join(sigs) + '.'
+                       if sigs else ' No known finding is kept for this property.')
         checks.append({
             'property_id': p,
             'quick_cmd': '/venv/bin/python harness/check.py %s --tier quick' % p,
